@@ -17,7 +17,12 @@ pub enum Lattice {
     Cube3,
     /// {0,1}^4
     Cube4,
+    /// 1-D points with pairs closer than machine epsilon: {-0.5, 0, 1-2^-24, 1-2^-53, 1, 2, 3}
+    /// (1-2^-53 and 1 are adjacent doubles; 1-2^-24 and 1 are adjacent floats)
+    LineAdj,
 }
+
+const LINE_ADJ: [f64; 7] = [-0.5, 0.0, 1.0 - 5.9604644775390625e-8, 1.0 - 1.1102230246251565e-16, 1.0, 2.0, 3.0];
 
 impl Lattice {
     pub fn parse(s: &str) -> Lattice {
@@ -26,6 +31,7 @@ impl Lattice {
             "lat2" => Lattice::Grid3,
             "cube3" => Lattice::Cube3,
             "cube4" => Lattice::Cube4,
+            "latadj" => Lattice::LineAdj,
             o => panic!("unknown lattice {}", o),
         }
     }
@@ -35,6 +41,7 @@ impl Lattice {
             Lattice::Grid3 => "lat2",
             Lattice::Cube3 => "cube3",
             Lattice::Cube4 => "cube4",
+            Lattice::LineAdj => "latadj",
         }
     }
     pub fn size(self) -> usize {
@@ -43,6 +50,7 @@ impl Lattice {
             Lattice::Grid3 => 9,
             Lattice::Cube3 => 8,
             Lattice::Cube4 => 16,
+            Lattice::LineAdj => 7,
         }
     }
     pub fn dim(self) -> usize {
@@ -51,6 +59,7 @@ impl Lattice {
             Lattice::Grid3 => 2,
             Lattice::Cube3 => 3,
             Lattice::Cube4 => 4,
+            Lattice::LineAdj => 1,
         }
     }
     pub fn point(self, v: usize) -> Vec<f64> {
@@ -59,16 +68,21 @@ impl Lattice {
             Lattice::Grid3 => vec![(v / 3) as f64, (v % 3) as f64],
             Lattice::Cube3 => (0..3).map(|b| ((v >> (2 - b)) & 1) as f64).collect(),
             Lattice::Cube4 => (0..4).map(|b| ((v >> (3 - b)) & 1) as f64).collect(),
+            Lattice::LineAdj => vec![LINE_ADJ[v]],
         }
     }
     /// The radii tried on this lattice; realised distances (so that `d == eps` occurs) and values
     /// between them, from "nothing within eps but the point itself" to "everything within eps".
     pub fn eps_list(self, thorough: bool) -> Vec<f64> {
         let s2 = std::f64::consts::SQRT_2;
+        if self == Lattice::LineAdj {
+            // radii between the adjacent values, so that the boundary falls inside a sub-epsilon pair
+            return vec![LINE_ADJ[3], LINE_ADJ[2], 1.0, 0.5, 1.5, 3.0];
+        }
         let mut v = vec![0.5, 1.0, s2, 2.0, 3.0];
         if thorough {
             match self {
-                Lattice::Line5 => v.extend([4.0]),
+                Lattice::Line5 | Lattice::LineAdj => v.extend([4.0]),
                 Lattice::Grid3 => v.extend([5f64.sqrt(), 8f64.sqrt(), 4.0]),
                 Lattice::Cube3 | Lattice::Cube4 => v.extend([3f64.sqrt(), 4.0]),
             }
@@ -80,6 +94,15 @@ impl Lattice {
     pub fn queries(self) -> Vec<Vec<f64>> {
         let mut q: Vec<Vec<f64>> = Vec::new();
         match self {
+            Lattice::LineAdj => {
+                for x in LINE_ADJ {
+                    q.push(vec![x]);
+                }
+                for x in [0.5, 0.25, 1.5, 2.5, -1.0] {
+                    q.push(vec![x]);
+                }
+                q.push(vec![9.0]);
+            }
             Lattice::Line5 => {
                 for i in -2..=10 {
                     q.push(vec![i as f64 * 0.5]);
